@@ -193,6 +193,16 @@ class Suite:
     def ok(self):
         return not self.disagreements
 
+    def merge(self, other):
+        """fold the results of another round of the same suite (other seed) into this one"""
+        self.evaluations += other.evaluations
+        self.nontrivial |= other.nontrivial
+        self.indeterminate += other.indeterminate
+        self.disagreements += other.disagreements
+        for k, v in other.hist.items():
+            self.hist[k] = self.hist.get(k, 0) + v
+        self.samples = (self.samples + other.samples)[:3]
+
     def summary(self):
         return {
             "suite": self.name,
